@@ -287,7 +287,13 @@ class Program:
         if r[0] == 'func':
             return r[1] + '.' + r[2]
         if r[0] == 'method':
-            return r[1] + '.' + r[2] + '.' + r[3]
+            q = r[1] + '.' + r[2] + '.' + r[3]
+            if q not in self.funcs and len(r) > 4:
+                # a class nested in a class: the registry keys carry the full nesting
+                for k, f in self.funcs.items():
+                    if f.node is r[4]:
+                        return k
+            return q
         return None
 
     def bases(self, m, c):
